@@ -3,6 +3,7 @@ package props
 import (
 	"encoding/json"
 	"fmt"
+	"github.com/trustbloc/sidetree-core-go/pkg/hashing"
 	"math/rand"
 	"sync"
 	"time"
@@ -173,6 +174,7 @@ func parserRobustness(c *ev.Ctx, cases []intakeCase) {
 			inputs = append(inputs, m)
 		}
 	}
+	inputs = append(inputs, deepDeltaMutations(concr.SHA256)...)
 	for k := 0; k < 300; k++ {
 		b := make([]byte, rng.Intn(200))
 		rng.Read(b)
@@ -215,6 +217,96 @@ func parserRobustness(c *ev.Ctx, cases []intakeCase) {
 	c.Cov.Evaluations += int64(len(inputs) * len(entry))
 	c.Cov.Extra["robustness_inputs"] = len(inputs)
 	c.Cov.Extra["robustness_calls"] = len(inputs) * len(entry)
+}
+
+// deepDeltaMutations: create requests whose delta carries one patch of every kind; every node of the delta (at any
+// depth) is dropped / replaced by null, a number, a string, an empty array, an empty object, a boolean; the suffix data's
+// delta hash is recomputed so that the mutated delta reaches validation.
+func deepDeltaMutations(hash uint) [][]byte {
+	delta := map[string]interface{}{
+		"updateCommitment": "EiDKIkwqO69IPG3pOlHkdb86nYt0aNxSHZu2r-bhEznjdA",
+		"patches": []interface{}{
+			map[string]interface{}{"action": "ietf-json-patch", "patches": []interface{}{map[string]interface{}{"op": "add", "path": "/x", "value": map[string]interface{}{"a": 1}}, map[string]interface{}{"op": "copy", "from": "/x", "path": "/y"}}},
+			map[string]interface{}{"action": "add-public-keys", "publicKeys": []interface{}{map[string]interface{}{"id": "k1", "type": "JsonWebKey2020", "purposes": []interface{}{"authentication"},
+				"publicKeyJwk": map[string]interface{}{"kty": "EC", "crv": "P-256", "x": "PUymIqdtF_qxaAqPABSw-C-owT1KYYQbsMKFM-L9fJA", "y": "nM84jDHCMOTGTh_ZdHq4dBBdo4Z5PkEOW9jA8z8IsGc"}}}},
+			map[string]interface{}{"action": "add-services", "services": []interface{}{map[string]interface{}{"id": "s1", "type": "T", "serviceEndpoint": []interface{}{"https://e.example.com", map[string]interface{}{"o": 1}}}}},
+			map[string]interface{}{"action": "remove-public-keys", "ids": []interface{}{"k9"}},
+			map[string]interface{}{"action": "remove-services", "ids": []interface{}{"s9"}},
+			map[string]interface{}{"action": "add-also-known-as", "uris": []interface{}{"https://a.example.com"}},
+			map[string]interface{}{"action": "remove-also-known-as", "uris": []interface{}{"https://b.example.com"}},
+			map[string]interface{}{"action": "replace", "document": map[string]interface{}{"publicKeys": []interface{}{}, "services": []interface{}{}}},
+		},
+	}
+	raw, _ := json.Marshal(delta)
+	var out [][]byte
+	emit := func(d interface{}) {
+		dh, err := hashing.CalculateModelMultihash(d, hash)
+		if err != nil {
+			dh = "EiA"
+		}
+		req := map[string]interface{}{"type": "create", "delta": d,
+			"suffixData": map[string]interface{}{"deltaHash": dh, "recoveryCommitment": "EiBfOZdMtU6OBw8Pk879QtZ-2J-9FbbjSZyoaA_bqD4zhA"}}
+		b, _ := json.Marshal(req)
+		out = append(out, b)
+	}
+	repl := []interface{}{nil, 7, "x", []interface{}{}, map[string]interface{}{}, true}
+	// enumerate node positions by a path of keys / indices
+	var paths [][]interface{}
+	var walk func(v interface{}, at []interface{})
+	walk = func(v interface{}, at []interface{}) {
+		if len(at) > 0 {
+			paths = append(paths, append([]interface{}{}, at...))
+		}
+		switch t := v.(type) {
+		case map[string]interface{}:
+			for k, x := range t {
+				walk(x, append(at, k))
+			}
+		case []interface{}:
+			for i, x := range t {
+				walk(x, append(at, i))
+			}
+		}
+	}
+	var root interface{}
+	_ = json.Unmarshal(raw, &root)
+	walk(root, nil)
+	set := func(v interface{}, at []interface{}, r interface{}, drop bool) {
+		for _, k := range at[:len(at)-1] {
+			switch t := v.(type) {
+			case map[string]interface{}:
+				v = t[k.(string)]
+			case []interface{}:
+				v = t[k.(int)]
+			}
+		}
+		last := at[len(at)-1]
+		switch t := v.(type) {
+		case map[string]interface{}:
+			if drop {
+				delete(t, last.(string))
+			} else {
+				t[last.(string)] = r
+			}
+		case []interface{}:
+			t[last.(int)] = r
+		}
+	}
+	for _, at := range paths {
+		for _, r := range repl {
+			var d interface{}
+			_ = json.Unmarshal(raw, &d)
+			set(d, at, r, false)
+			emit(d)
+		}
+		if _, isKey := at[len(at)-1].(string); isKey {
+			var d interface{}
+			_ = json.Unmarshal(raw, &d)
+			set(d, at, nil, true)
+			emit(d)
+		}
+	}
+	return out
 }
 
 // structuralMutations: every member dropped / nulled / retyped / duplicated at the top level and one level down.
